@@ -5,3 +5,8 @@ set -e
 d="$1"; [ -n "$d" ] || { echo "usage: $0 <dir>"; exit 2; }
 case "$d" in /repo*|/verif*) echo "scratch copies must live outside /repo and /verif"; exit 2;; esac
 rm -rf "$d"; cp -a /repo "$d"; echo "scratch copy at $d"
+# optional second argument "relocate": rewrite the absolute /repo paths recorded by configure so that make/make check run inside the copy
+if [ "$2" = "relocate" ]; then
+  grep -rlZ --include=Makefile --include=config.status --include=libtool --include='*.la' --include='*.lai' -e '/repo' "$d" 2>/dev/null | xargs -0 -r sed -i "s#/repo#$d#g"
+  echo "relocated build files to $d"
+fi
